@@ -24,6 +24,9 @@ def run(ctx):
     for n, (d, f, l) in enumerate(semlib.cover_product(rng, [dbs, sets["fromsalias6"], sets["listsalias6"]], N[ctx.tier] - n1)):
         q = dict(**{"from": sets["fromsalias6"][f]}, where=[], list=sets["listsalias6"][l], group=[], order=[], limit=-1, offset=-1, style=n % 8)
         cases.append(dict(db=dbs[d], q=q, _t=d))
+    for n, (d, f, l) in enumerate(semlib.cover_product(rng, [dbs, sets["fromssame6"], sets["listssame6"]], max(200, N[ctx.tier] // 20))):
+        q = dict(**{"from": sets["fromssame6"][f]}, where=[], list=sets["listssame6"][l], group=[], order=[], limit=-1, offset=-1, style=n % 8)
+        cases.append(dict(db=dbs[d], q=q, _t=d))
     pool = vlib.WorkerPool(ctx, binary)
     try:
         semlib.execute(ctx, pool, cases, lambda c: c["_t"])
